@@ -142,10 +142,14 @@ def isIntegerType : DataType → Bool
   | .integer _ _ => true
   | _ => false
 
-/-- `Extension::validate_name` -/
+/-- `Extension::validate_xml_name` (= `validate_name` and the first character is a letter or an underscore,
+    as XML requires of names) -/
 def validName (s : String) : Bool :=
   !s.isEmpty && !(s.toLower.startsWith "xml") &&
-    s.toList.all (fun c => c.isAlphanum || c == '_' || c == '-')
+    s.toList.all (fun c => c.isAlphanum || c == '_' || c == '-') &&
+    (match s.toList with
+     | c :: _ => c.isAlpha || c == '_'
+     | [] => false)
 
 /-- `Extension::validate_prototype` -/
 def validateExtensions (p : Prototype) (exts : List (String × String)) : Bool :=
